@@ -217,9 +217,74 @@ def main(pid):
 
             chk.explore('transition ' + meth, run, judge)
 
+    # ------------------------------------------------------------------------------- backoff induction (unbounded waiting)
+    def backoff_induction():
+        """ensure_token_or_cheat waits in a loop with a growing back-off; the number of timeouts is unbounded (as long as no
+        token arrives), so the bounded scripts above cannot see what happens after many of them.  One inductive step instead:
+        start the loop with an ARBITRARY back-off d satisfying the invariant I(d): 1 ms <= d <= 1 s, go through two timeouts, and
+        require (a) no Duration overflow and (b) that the value multiplied at the second timeout again satisfies I.  With the
+        base case (the literal initial value satisfies I) this covers every number of timeouts."""
+        ONE_S = 1000000000
+        LO = 1000000      # 1 ms: a zero back-off would make the loop spin without ever blocking
+        st = {}
+
+        def run():
+            w = JobWorld(eng, 0, 1, adv_budget=0, allow_steal=False, max_wakeups=MAX_WAKEUPS, max_timeouts=2)
+            eng.world = w
+            st['w'] = w
+            st['muls'] = []
+            st['init'] = []
+            d = z3.Int('backoff0')
+
+            def from_millis_hook(e, ms, sp):
+                if 'ensure_token_or_cheat' in str(e.cur_site()) and not st['init']:
+                    from mirsym.summaries.sysenv import tval
+                    st['init'].append(tval(ms) * 1000000)
+                    e.assume(z3.And(d >= LO, d <= ONE_S))
+                    return Struct('Duration', [d])
+                return None
+            w.from_millis_hook = from_millis_hook
+            w.on_duration_mul = lambda e, x, k, sp: st['muls'].append((x, k))
+            server, state, params = make_server(eng, 0, 0, 0)
+            sref = new_cell(server)
+            href = new_cell(eng.call('JobServer::handle', [sref], None, None))
+            cl = Client(eng, href, ['ensure'], [])
+
+            def cheat(e, args):
+                w.ev('cheat_func', answer=0)
+                return ok(0)
+            cl.cheat_closure = lambda: new_cell(PyCallable(cheat, 'cheat'))
+            return eng.call('JobServer::block_on', [sref, Opaque('PyFuture', cl)], None, None)
+
+        def judge(outcome, val, path):
+            if pid != 'C09':
+                return None
+            w = st['w']
+            chk.goal('backoff induction: two timeouts in one wait', w.timeouts >= 2 and len(st['muls']) >= 2)
+            wit = {'script_name': 'backoff', 'script': ['ensure'], 'config': 'inherited', 'top_level': 0, 'pipe0': 0, 'others0': 1,
+                   'events': [(k, d) for k, d in w.log]}
+            if outcome == 'panic':
+                fn, sp = val.site()
+                return {'role': 'panic:ensure_token_or_cheat:backoff-overflow', 'witness': wit, 'kind': 'backoff',
+                        'what': 'ensure_token_or_cheat aborts: %s (%s:%s)' % (val.msg, sp[0] if sp else '?', sp[1] if sp else '?')}
+            if st['init'] and not (LO <= st['init'][0] <= ONE_S):
+                return {'role': 'panic:ensure_token_or_cheat:backoff-overflow', 'witness': wit, 'kind': 'backoff',
+                        'what': 'initial back-off %r ns is outside the invariant 1 ms..1 s' % st['init'][0]}
+            for x, k in st['muls'][1:]:
+                bad = z3.Or(x < LO, x > ONE_S) if not isinstance(x, int) else not (LO <= x <= ONE_S)
+                if eng.check(bad):
+                    return {'role': 'panic:ensure_token_or_cheat:backoff-overflow', 'witness': wit, 'kind': 'backoff',
+                            'what': 'the back-off of ensure_token_or_cheat is not bounded: after one more timeout it can exceed 1 s '
+                                    '(it keeps growing with every timeout until Duration arithmetic overflows and the process aborts)'}
+            return None
+
+        chk.explore('backoff induction (ensure_token_or_cheat, arbitrary 1ms <= backoff <= 1s, two timeouts)', run, judge)
+
     rep = Replayer(log)
     try:
         transitions()
+        if not os.environ.get('VERIF_ONLY') or 'backoff' in os.environ.get('VERIF_ONLY'):
+            backoff_induction()
         only = os.environ.get('VERIF_ONLY')
         for sname in SCRIPTS:
             for cfg in CONFIGS:
@@ -364,6 +429,16 @@ def make_replay(rep):
         if c.get('kind') == 'transition':
             return False, 'transition counterexamples are replayed through Kani only'
         w = c['witness']
+        if c.get('kind') == 'backoff':
+            # the inductive step failed: confirm on the real code that waiting through enough timeouts aborts the process
+            # (80 timeouts, about 75 s of real waiting; the 81st cheat_func answer ends the wait on a correct implementation)
+            line = '0 0 0 R A- E:' + '0' * 80 + '1'
+            c['native_scenario'] = line
+            payload, raw, rc = rep.run('jobserver', 'script_batch', [line], release=False, timeout=900)
+            if len(payload) != 1:
+                return False, 'native run failed (rc=%s): %s' % (rc, raw[-400:])
+            d = parse_native(payload[0])
+            return (d['status'] == 'PANIC' and 'overflow' in d['result']), 'scenario `%s` -> %s' % (line, payload[0])
         line = to_native(w)
         c['native_scenario'] = line
         outs = []
